@@ -3,6 +3,7 @@ package main
 // Symbolic execution of one SSA function (naive form) into a passive script with obligations.
 
 import (
+	"go/ast"
 	"fmt"
 	"go/token"
 	"go/types"
@@ -1003,6 +1004,9 @@ func (ex *Exec) instr(in ssa.Instruction) {
 		ks := c.sortOf(mt.Key())
 		c.heapSet(ex.st, kh, Store(c.heapGet(ex.st, kh), ref, T(ArraySort(ks, SBool), "((as const %s) false)", ArraySort(ks, SBool))))
 		c.heapSet(ex.st, kl, Store(c.heapGet(ex.st, kl), ref, c.idxLit(0)))
+		if sum0, msd := ex.mapSumTerm(ex.st, mt, ref); msd != nil {
+			c.assume(Implies(ex.rch, T(SBool, "(= %s 0)", sum0.S))) // ghost: an empty map sums to 0
+		}
 		ex.set(in, Val{T: ref, Ty: in.Type()})
 	case *ssa.MakeSlice:
 		ex.doMakeSlice(in)
@@ -1676,7 +1680,21 @@ func (ex *Exec) mapVal(st *State, mt *types.Map, m, k Term) Term {
 
 func (ex *Exec) mapLen(st *State, mt *types.Map, m Term) Term {
 	c := ex.c
-	return Select(c.heapGet(st, c.keyMapLen(mt)), m, c.idxSort())
+	ln := Select(c.heapGet(st, c.keyMapLen(mt)), m, c.idxSort())
+	// a property of every Go map, stated for the map object whose length is read: length 0 means no key is present
+	// (the ghost cardinality and the membership array are otherwise independent after a havoc)
+	if c.Mode == ArithInt && !hasBoundVar(m.S) && !hasBoundVar(ln.S) {
+		ks := c.sortOf(mt.Key())
+		has := Select(c.heapGet(st, c.keyMapHas(mt)), m, ArraySort(ks, SBool))
+		key := "maplen0:" + ln.S + ":" + has.S
+		if !c.declKeys[key] {
+			c.declKeys[key] = true
+			c.fresh++
+			bv := fmt.Sprintf("k!ml%d", c.fresh)
+			c.assume(T(SBool, "(=> (= %s 0) (forall ((%s %s)) (! (not (select %s %s)) :pattern ((select %s %s)))))", ln.S, bv, ks, has.S, bv, has.S, bv))
+		}
+	}
+	return ln
 }
 
 func (ex *Exec) doLookup(in *ssa.Lookup) {
@@ -1716,10 +1734,21 @@ func (ex *Exec) mapStore(st *State, mt *types.Map, m, k, v Term) {
 	vs := c.sortOf(mt.Elem())
 	kh, kv, kl := c.keyMapHas(mt), c.keyMapVal(mt), c.keyMapLen(mt)
 	had := c.define("had", ex.mapHas(st, mt, m, k))
+	sumBefore, msd := ex.mapSumTerm(st, mt, m)
+	var oldW Term
+	if msd != nil {
+		oldW = ex.weightTerm(msd, mt, ex.mapVal(st, mt, m, k))
+	}
 	hh := c.heapGet(st, kh)
 	c.heapSet(st, kh, Store(hh, m, Store(Select(hh, m, ArraySort(ks, SBool)), k, tTrue)))
 	hv := c.heapGet(st, kv)
 	c.heapSet(st, kv, Store(hv, m, Store(Select(hv, m, ArraySort(ks, vs)), k, v)))
+	if msd != nil {
+		// ghost: sum' = sum - (weight of the replaced value, if any) + weight of the new value; sums are non-negative
+		sumAfter, _ := ex.mapSumTerm(st, mt, m)
+		c.assume(Implies(ex.rch, T(SBool, "(= %s (+ (- %s (ite %s %s 0)) %s))", sumAfter.S, sumBefore.S, had.S, oldW.S, ex.weightTerm(msd, mt, v).S)))
+		c.assume(Implies(ex.rch, T(SBool, "(>= %s 0)", sumAfter.S)))
+	}
 	hl := c.heapGet(st, kl)
 	one := c.idxLit(1)
 	c.heapSet(st, kl, Store(hl, m, Ite(had, Select(hl, m, c.idxSort()), ex.idxAdd(Select(hl, m, c.idxSort()), one))))
@@ -1730,8 +1759,18 @@ func (ex *Exec) mapDelete(st *State, mt *types.Map, m, k Term) {
 	ks := c.sortOf(mt.Key())
 	kh, kl := c.keyMapHas(mt), c.keyMapLen(mt)
 	had := c.define("had", And(Not(Eq(m, IntLit("0"))), ex.mapHas(st, mt, m, k)))
+	sumBefore, msd := ex.mapSumTerm(st, mt, m)
+	var oldW Term
+	if msd != nil {
+		oldW = ex.weightTerm(msd, mt, ex.mapVal(st, mt, m, k))
+	}
 	hh := c.heapGet(st, kh)
 	c.heapSet(st, kh, Store(hh, m, Store(Select(hh, m, ArraySort(ks, SBool)), k, tFalse)))
+	if msd != nil {
+		sumAfter, _ := ex.mapSumTerm(st, mt, m)
+		c.assume(Implies(ex.rch, T(SBool, "(= %s (- %s (ite %s %s 0)))", sumAfter.S, sumBefore.S, had.S, oldW.S)))
+		c.assume(Implies(ex.rch, T(SBool, "(>= %s 0)", sumAfter.S)))
+	}
 	hl := c.heapGet(st, kl)
 	one := c.idxLit(1)
 	c.heapSet(st, kl, Store(hl, m, Ite(had, ex.idxSub(Select(hl, m, c.idxSort()), one), Select(hl, m, c.idxSort()))))
@@ -1916,4 +1955,30 @@ func (ex *Exec) funcInsertsInto(fn *ssa.Function, mt *types.Map, depth int) bool
 		}
 	}
 	return false
+}
+
+// mapSumTerm: the ghost weighted sum of map object m (nil when no mapsum is declared for the map type).
+func (ex *Exec) mapSumTerm(st *State, mt *types.Map, m Term) (Term, *MapSum) {
+	ms, ok := ex.w.MapSums[mt.String()]
+	if !ok {
+		return Term{}, nil
+	}
+	c := ex.c
+	ks := c.sortOf(mt.Key())
+	vs := c.sortOf(mt.Elem())
+	fn := "msum." + sanitizeSym(ms.Name)
+	c.decl("fn:"+fn, fmt.Sprintf("(declare-fun %s (%s %s) Int)", fn, ArraySort(ks, SBool), ArraySort(ks, vs)))
+	has := Select(c.heapGet(st, c.keyMapHas(mt)), m, ArraySort(ks, SBool))
+	val := Select(c.heapGet(st, c.keyMapVal(mt)), m, ArraySort(ks, vs))
+	return T(SInt, "(%s %s %s)", fn, has.S, val.S), &ms
+}
+
+// weightTerm applies the declared weight spec function to a map value.
+func (ex *Exec) weightTerm(ms *MapSum, mt *types.Map, v Term) Term {
+	sf, ok := ex.w.Specs[ms.Weight]
+	if !ok {
+		panic(unsupported("mapsum %s: unknown weight spec %s", ms.Name, ms.Weight))
+	}
+	env := &Env{ex: ex, st: ex.st, old: ex.st, vars: map[string]Val{"x!w": {T: v, Ty: mt.Elem()}}, where: "mapsum " + ms.Name}
+	return env.specCall(sf, []ast.Expr{ast.NewIdent("x!w")}).T
 }
